@@ -58,44 +58,33 @@ theorem c17_fail (c : Ctx) (fs : FS) (r : RunResult) (e : ErrV)
     · have hrem : c.flags.remove = true := by
         cases h : c.flags.remove <;> simp [h] at hrm ⊢
       simp only [hrm, if_true] at he ⊢
-      cases hfs : fs c.flags.outFile with
-      | absent =>
-        simp only [hfs] at he ⊢
-        obtain ⟨h1, h2⟩ := afterRemove_fail c _ e he hself
-        refine ⟨by rw [h1]; simp [eff], ?_⟩
-        rw [h2]; simp [eff, hfs]
-      | file b =>
-        simp only [hfs] at he ⊢
-        cases hf : c.faults.remove with
-        | none =>
+      cases hf : c.faults.remove with
+      | some e' =>
+        cases e' with
+        | notExist =>
           simp only [hf] at he ⊢
           obtain ⟨h1, h2⟩ := afterRemove_fail c _ e he hself
           refine ⟨by rw [h1]; simp [eff], ?_⟩
-          rw [h2]; simp [eff, setNode, hrem]
-        | some e' =>
-          cases e' with
-          | notExist =>
-            simp only [hf] at he ⊢
-            obtain ⟨h1, h2⟩ := afterRemove_fail c _ e he hself
-            refine ⟨by rw [h1]; simp [eff], ?_⟩
-            rw [h2]; simp [eff, hfs]
-          | msg m => simp [eff, hfs]
-      | dir =>
-        simp only [hfs] at he ⊢
-        cases hf : c.faults.remove with
-        | none =>
-          simp only [hf] at he ⊢
+          rw [h2]; simp [eff]
+        | msg m => simp [eff]
+      | none =>
+        simp only [hf] at he ⊢
+        cases hfs : fs c.flags.outFile with
+        | absent =>
+          simp only [hfs] at he ⊢
+          obtain ⟨h1, h2⟩ := afterRemove_fail c _ e he hself
+          refine ⟨by rw [h1]; simp [eff], ?_⟩
+          rw [h2]; simp [eff, hfs]
+        | file b =>
+          simp only [hfs] at he ⊢
           obtain ⟨h1, h2⟩ := afterRemove_fail c _ e he hself
           refine ⟨by rw [h1]; simp [eff], ?_⟩
           rw [h2]; simp [eff, setNode, hrem]
-        | some e' =>
-          cases e' with
-          | notExist =>
-            simp only [hf] at he ⊢
-            obtain ⟨h1, h2⟩ := afterRemove_fail c _ e he hself
-            refine ⟨by rw [h1]; simp [eff], ?_⟩
-            rw [h2]; simp [eff, hfs]
-          | msg m => simp [eff, hfs]
+        | dir =>
+          simp only [hfs] at he ⊢
+          obtain ⟨h1, h2⟩ := afterRemove_fail c _ e he hself
+          refine ⟨by rw [h1]; simp [eff], ?_⟩
+          rw [h2]; simp [eff, setNode, hrem]
     · simp only [hrm, Bool.false_eq_true, if_false] at he ⊢
       obtain ⟨h1, h2⟩ := afterRemove_fail c _ e he hself
       exact ⟨by rw [h1], Or.inl (by rw [h2])⟩
@@ -149,39 +138,29 @@ theorem c17_ok (c : Ctx) (fs : FS) (r : RunResult)
     · have hne : c.flags.outFile ≠ [] := by
         intro h; simp [h] at hrm
       simp only [hrm, if_true] at he ⊢
-      cases hfs : fs c.flags.outFile with
-      | absent =>
-        simp only [hfs] at he ⊢
-        obtain ⟨text, _, h2⟩ := afterRemove_ok c _ he
-        exact ⟨text, fun h => absurd h hne, fun _ => by simpa [eff] using h2 hne⟩
-      | file b =>
-        simp only [hfs] at he ⊢
-        cases hf : c.faults.remove with
-        | none =>
+      cases hf : c.faults.remove with
+      | some e' =>
+        cases e' with
+        | notExist =>
           simp only [hf] at he ⊢
           obtain ⟨text, _, h2⟩ := afterRemove_ok c _ he
           exact ⟨text, fun h => absurd h hne, fun _ => by simpa [eff] using h2 hne⟩
-        | some e' =>
-          cases e' with
-          | notExist =>
-            simp only [hf] at he ⊢
-            obtain ⟨text, _, h2⟩ := afterRemove_ok c _ he
-            exact ⟨text, fun h => absurd h hne, fun _ => by simpa [eff] using h2 hne⟩
-          | msg m => simp [hf] at he
-      | dir =>
-        simp only [hfs] at he ⊢
-        cases hf : c.faults.remove with
-        | none =>
-          simp only [hf] at he ⊢
+        | msg m => simp [hf] at he
+      | none =>
+        simp only [hf] at he ⊢
+        cases hfs : fs c.flags.outFile with
+        | absent =>
+          simp only [hfs] at he ⊢
           obtain ⟨text, _, h2⟩ := afterRemove_ok c _ he
           exact ⟨text, fun h => absurd h hne, fun _ => by simpa [eff] using h2 hne⟩
-        | some e' =>
-          cases e' with
-          | notExist =>
-            simp only [hf] at he ⊢
-            obtain ⟨text, _, h2⟩ := afterRemove_ok c _ he
-            exact ⟨text, fun h => absurd h hne, fun _ => by simpa [eff] using h2 hne⟩
-          | msg m => simp [hf] at he
+        | file b =>
+          simp only [hfs] at he ⊢
+          obtain ⟨text, _, h2⟩ := afterRemove_ok c _ he
+          exact ⟨text, fun h => absurd h hne, fun _ => by simpa [eff] using h2 hne⟩
+        | dir =>
+          simp only [hfs] at he ⊢
+          obtain ⟨text, _, h2⟩ := afterRemove_ok c _ he
+          exact ⟨text, fun h => absurd h hne, fun _ => by simpa [eff] using h2 hne⟩
     · simp only [hrm, Bool.false_eq_true, if_false] at he ⊢
       obtain ⟨text, h1, h2⟩ := afterRemove_ok c _ he
       exact ⟨text, fun h => by simpa using h1 h, fun h => by simpa using h2 h⟩
